@@ -341,12 +341,12 @@ fn gen_case(batch: &str, rng: &mut Rng) -> Case {
     Case { prog, sim, batch: batch.to_string(), target: rng.next_u64() }
 }
 
-fn run_sampled<S: shuttle_engine::scheduler::Scheduler + 'static>(sched: S, prog: &Arc<Program>) -> (Ending, crate::sim::RunTrace) {
+fn run_sampled<S: shuttle_engine::scheduler::Scheduler + Send + 'static>(sched: S, prog: &Arc<Program>) -> (Ending, crate::sim::RunTrace) {
     let p = prog.clone();
     let _ = take_monitor_violations();
-    SAMPLE_CLOCKS.with(|s| s.set(true));
+    SAMPLE_CLOCKS.store(true, std::sync::atomic::Ordering::SeqCst);
     let r = run_recorded(sched, quiet_config(), move || run_program(&p));
-    SAMPLE_CLOCKS.with(|s| s.set(false));
+    SAMPLE_CLOCKS.store(false, std::sync::atomic::Ordering::SeqCst);
     let _ = take_monitor_violations();
     r
 }
